@@ -26,7 +26,7 @@ RULE = ("case = one verified restart of constructSurrogate in a fresh process af
         "checkpoint files, a second kill inside the restart, a kill at a seeded time (parallel mode), or a planted torn prefix of a snapshot); "
         "non-trivial = the final stage ran to its verdict; distinct = distinct (scenario signature | fault class)")
 
-WATCHDOG = 30   # seconds for the judged stage (the whole uninterrupted scenario takes milliseconds)
+WATCHDOG = 20   # seconds for the judged stage (the whole uninterrupted scenario takes milliseconds)
 
 # ---------------------------------------------------------------------------------------------------------------
 class Ctx:
@@ -37,6 +37,7 @@ class Ctx:
         self.root = None
         self.lock = threading.Lock()
         self.dry = {}      # (scen, par) -> dict(dir, ops, snaps, log)
+        self.hung = set()  # (scen, par, fault class) whose restart already hit the watchdog: established once, not paid for again
 
 def build_shim():
     out = os.path.join(CK.BUILD_ROOT, "fs_shim.so")
@@ -83,7 +84,10 @@ def run_stage(ctx, variant, scen, par, d, stage, mode, kill=None, extra=(), shim
             else:
                 env["C17_KILL_OP"] = str(kill["op"]); env["C17_KILL_KIND"] = kill["kind"]
                 if kill["kind"] == "torn": env["C17_TORN_BYTES"] = str(kill.get("torn", 1))
-    args = [ctx.bin[variant], "C17", str(ctx.seed), str(scen), "1"] + (["thorough"] if ctx.tier == "thorough" else []) + \
+    pre = []
+    if variant == "valgrind":
+        pre = ["valgrind", "-q", "--error-exitcode=97", "--num-callers=12"]; env["C17_NO_RLIMIT"] = "1"; timeout = timeout * 6
+    args = pre + [ctx.bin["plain" if variant == "valgrind" else variant], "C17", str(ctx.seed), str(scen), "1"] + (["thorough"] if ctx.tier == "thorough" else []) + \
            ["mode=" + mode, "par=%d" % par, "dir=" + d, "stage=%d" % stage] + list(extra)
     try:
         r = subprocess.run(args, env=env, stdout=subprocess.PIPE, stderr=subprocess.PIPE, text=True, errors="replace", timeout=timeout)
@@ -111,6 +115,11 @@ def verdict_of(pr, fclass, variant):
             except Exception: pass
     if pr["hung"]:
         viols.append(dict(key="restart-hang@" + fclass, detail=json.dumps({"watchdog_s": WATCHDOG, "note": "the uninterrupted run of the same scenario takes milliseconds"}))); status = "viol"
+    elif variant == "valgrind" and pr["rc"] == 97:
+        m = re.search(r"==\d+== (Conditional jump or move depends on uninitialised value|Use of uninitialised value|Invalid read|Invalid write|Syscall param \S+ points to uninitialised|Argument '\w+' of function \w+ has a fishy)", pr["err"])
+        kind = re.sub(r"[^a-z]+", "-", (m.group(1) if m else "error").lower()).strip("-")
+        fr = re.search(r"(?:at|by) 0x[0-9A-F]+: (TasGrid::[\w:]+)", pr["err"])
+        viols.append(dict(key="restart-memcheck:%s:%s@%s" % (kind, fr.group(1) if fr else "?", fclass), detail=json.dumps({"stderr": pr["err"][:2500]}))); status = "viol"
     elif status is None or pr["rc"] != 0:
         ck = CK.crash_key(pr["err"], pr["rc"])            # crash:<kind>:<frame>
         kind = ck.split(":", 1)[1] if ":" in ck else ck
@@ -225,6 +234,9 @@ def exec_prefix(ctx, spec, d):
     return final_stage(ctx, spec.get("variant", "plain"), scen, 0, d, 1, spec["fclass"], snap, pts)
 
 def execute(ctx, spec, idx):
+    hk = (spec["scen"], spec.get("par", 0), spec.get("fclass"))
+    if hk in ctx.hung:
+        return dict(status="inc", viols=[], counters={"inconclusive:same-scenario-and-fault-class-already-hung": 1}, sigs=[], descriptor=None, info={}, variant=spec.get("variant", "plain"), spec=spec, index=idx)
     d = os.path.join(ctx.root, "case_%d" % idx); shutil.rmtree(d, ignore_errors=True); os.makedirs(d)
     try:
         if spec["type"] == "prefix": v = exec_prefix(ctx, spec, d)
@@ -232,6 +244,8 @@ def execute(ctx, spec, idx):
     finally:
         if not os.environ.get("C17_KEEP"): shutil.rmtree(d, ignore_errors=True)
     v["spec"] = spec; v["index"] = idx
+    if any(x["key"].startswith(("restart-hang", "killed-stage-hang")) for x in v["viols"]):
+        with ctx.lock: ctx.hung.add(hk)
     return v
 
 # ---------------------------------------------------------------------------------------------------------------
@@ -338,6 +352,13 @@ def plan(ctx, ncases_override):
     for p in rnd.sample(mains, min(len(mains), asan_n)):
         q = dict(p); q["variant"] = "asan"; specs.append(q)
     cover["asan_prefixes"] = min(len(mains), asan_n)
+    # and a few under valgrind memcheck (uninitialised reads in the binary reader are invisible to ASan)
+    vg_n = 40 if thorough else 6
+    edge = [p for p in mains if not p["fclass"].endswith((":grid", ":stored-data", ":complete"))] or mains
+    vg = rnd.sample(edge, min(len(edge), vg_n // 2)) + rnd.sample(mains, min(len(mains), vg_n - vg_n // 2))
+    for p in vg:
+        q = dict(p); q["variant"] = "valgrind"; specs.append(q)
+    cover["valgrind_prefixes"] = len(vg)
     # ---- 4. parallel mode ----
     for s in par:
         dry = dry_run(ctx, s, 1); N = len(dry["ops"])
@@ -382,7 +403,7 @@ def check(prop, cfg, tier, seed, ncases_override=None):
         for v in allv:
             res.evaluations += 1
             for k, n in v["counters"].items(): res.add_counter(k, n)
-            res.add_counter("faults:" + v["spec"]["type"] + (":par" if v["spec"].get("par") else "") + (":asan" if v["spec"].get("variant") == "asan" else ""), 1)
+            res.add_counter("faults:" + v["spec"]["type"] + (":par" if v["spec"].get("par") else "") + (":" + v["spec"]["variant"] if v["spec"].get("variant") in ("asan", "valgrind") else ""), 1)
             if v["viols"]:
                 res.viol_cases += 1
                 for x in v["viols"]:
@@ -395,9 +416,11 @@ def check(prop, cfg, tier, seed, ncases_override=None):
                     except Exception: pass
             else:
                 res.inc += 1
-        ops_all = cover["ops_total"]; exhaustive = (tier == "thorough")
+        counts = {}
+        for x in res.violations: counts[x["key"]] = counts.get(x["key"], 0) + 1
+        exhaustive = (tier == "thorough")
         extra = dict(exhaustive=dict(sequential_op_kill_points=exhaustive, note="thorough: every intercepted operation of every sequential scenario x {before, after} and every write x torn at {1, mid, len-1, seeded}; every prefix length of the sampled snapshot pairs up to 4 KB. quick: all operations of the first three and the last two checkpoints plus a seeded sample; prefixes thinned to ~2600 keeping every section boundary. parallel mode and chains are sampled in both tiers."),
-                     fault_space=cover)
+                     fault_space=cover, violation_counts=dict(sorted(counts.items())))
         return CK.finish(prop, tier, seed, cfg.get("level", "fault_enumeration"), res, RULE, t0, extra_cov=extra, assumptions=cfg.get("assumptions"),
                          min_nontrivial=cfg.get("min_nontrivial", 20))
     finally:
